@@ -99,7 +99,7 @@ func (g *gen) dirPrefix() string {
 		opts = append(opts, "out/", "d1/d2/")
 	}
 	if g.p.ParentAbs && !g.same {
-		opts = append(opts, "../ext/", "/abs/")
+		opts = append(opts, "../ext/", "/abs/", "/mnt/")
 	}
 	return opts[g.n(len(opts))]
 }
@@ -109,7 +109,7 @@ func Generate(t *simrt.Tape, prof Profile) *WF {
 	g.p = g.swarm(prof)
 	w := &WF{Name: "wf", Sources: map[string]string{}}
 	g.w = w
-	w.Dirs = []string{"/ext", "/abs"}
+	w.Dirs = []string{"/ext", "/abs", "/mnt"}
 	// configuration
 	w.MaxTasks = 1 + g.n(max(1, prof.MaxSlots))
 	if len(prof.Bufsizes) > 0 {
